@@ -44,7 +44,7 @@ func entEqual(a, b badger.VerifEntry) bool {
 
 // C16 monitors the real log-file encode/iterate/read code.
 func C16(c *core.Ctx) {
-	c.Rule("generated log files: groups of transactional entries (bitTxn, one commit ts) closed by an end marker, interleaved non-transactional entries, " +
+	c.Rule("generated log files: groups of transactional entries (bitTxn, one commit ts drawn from the whole 64-bit range) closed by an end marker, interleaved non-transactional entries, " +
 		"optionally a last group without its end marker; keys 1..65000 bytes, values 0..3 MiB (value-log files hold values larger than the largest ValueThreshold), all meta/userMeta, expiry 0/max, plain and AES; " +
 		"oracle: iterate delivers exactly the entries of complete groups in write order with value pointers equal to an independently computed (offset,len), " +
 		"ReadAt(vp) returns the same entry, validEndOffset = end of last complete group, every single-byte flip inside key/value/crc of sampled records " +
@@ -83,6 +83,14 @@ func C16(c *core.Ctx) {
 			txn := r.Intn(3) != 0
 			n := 1 + r.Intn(4)
 			ts := uint64(1 + g + r.Intn(2)*1000)
+			switch r.Intn(6) {
+			case 0: // managed-mode commit timestamps use the whole 64-bit range
+				ts = 1<<63 + uint64(g) + uint64(r.Intn(1000))
+			case 1:
+				ts = ^uint64(0) - 1 - uint64(g)
+			case 2:
+				ts = 1<<32 + uint64(g)
+			}
 			for i := 0; i < n; i++ {
 				kl := 1 + r.Intn(20)
 				vl := r.Intn(200)
